@@ -355,6 +355,27 @@ def dnsUpdate (w : World) (host : Str) (qtype : Nat) (ttlNs : Int) (key : Str) :
   let w1 := { w with cache := w.cache.put ck od }
   (remember w1 (baseKeyOf ck) od, true)
 
+/-- where an injected failure hits `__updateDnsCacheDeadline` -/
+inductive DnsFault
+  | none
+  /-- the `NewCache` hook returns an error: before anything is stored -/
+  | newCache
+  /-- the cache-access callback (production: `BatchUpdateDomainRouting`, a kernel map batch update)
+  returns an error: AFTER the entry was stored and its knowledge remembered -/
+  | accessCallback
+deriving DecidableEq, Repr
+
+/-- `__updateDnsCacheDeadline` with a failing hook: `(world, stored?, error returned?)`. The "pure IP"
+bypass returns before either hook runs. -/
+def dnsUpdateF (w : World) (host : Str) (qtype : Nat) (ttlNs : Int) (key : Str) (f : DnsFault) :
+    World × Bool × Bool :=
+  let r := dnsUpdate w host qtype ttlNs key
+  if !r.2 then (w, false, false)
+  else match f with
+    | .none => (r.1, true, false)
+    | .newCache => (w, false, true)
+    | .accessCallback => (r.1, true, true)
+
 /-- `RemoveDnsRespCache(cacheKey)`. -/
 def dnsRemove (w : World) (ck : Str) : World :=
   match w.cache.get ck with
@@ -444,6 +465,28 @@ def probe (w : World) (d : Str) (answers : List Ans) : World :=
     if r.err4 && r.err6 then w                     -- probe failed for both families
     else if !r.ip4 && !r.ip6 then { w with neg := w.neg.put d (w.now + w.negTtl) }
     else addVerified w d
+
+/-- The part of `probeAndUpdateRealDomain` that runs AFTER the bootstrap resolvers answered (the
+function blocks in `resolveIp46WithBootstrapResolvers` for up to `realDomainProbeTimeout`; anything can
+happen in between): `start` is the `now := time.Now()` taken before the lookups — a negative entry
+is stamped from it, not from the completion time — and there is no second look at the caches. -/
+def probeFinish (w : World) (d : Str) (start : Int) (answers : List Ans) : World :=
+  if w.nboot = 0 then w
+  else
+    let r := resolveAll (answers.take w.nboot) none
+    if r.err4 && r.err6 then w
+    else if !r.ip4 && !r.ip6 then { w with neg := w.neg.put d (start + w.negTtl) }
+    else addVerified w d
+
+/-- `cleanupNegativeCaches` (datapath janitor tick), step 1: expired negative entries are dropped. -/
+def negCleanup (w : World) : World := { w with neg := w.neg.filter fun e => w.now < e.2 }
+
+/-- A reload builds a new `ControlPlane` generation: fresh (empty) verified-name filter and negative
+set, dial mode and bootstrap resolvers from the new configuration. What happens to the DNS cache is a
+separate step (`dnsClose`+`dnsRestore` when a new controller restores the cloned cache; nothing when
+the store is shared through `ReuseForReload`). -/
+def newGeneration (w : World) (m : Mode) (nboot : Nat) : World :=
+  { w with mode := m, nboot := nboot, realSet := [], realAdds := 0, neg := [] }
 
 /-- how many times the probe calls `resolveIp46ForRealDomainProbe` (observable in the harness). -/
 def probeCalls (w : World) (answers : List Ans) : Nat :=
@@ -553,6 +596,12 @@ inductive Event
   | hasKnow (name : Str) (is4 : Bool)
   | choose (ob : Nat) (dst : Dst) (d : Str)
   | probeDone (d : Str) (answers : List Ans)
+  /-- the probe goroutine up to its resolver call (`lookupRealDomainCache` at its start) -/
+  | probeStart (d : Str)
+  /-- … and its completion, any number of events later -/
+  | probeFinish (d : Str) (start : Int) (answers : List Ans)
+  | negCleanup
+  | newGeneration (m : Mode) (nboot : Nat)
 deriving Repr
 
 def step (w : World) : Event → World
@@ -567,7 +616,67 @@ def step (w : World) : Event → World
   | .hasKnow n is4 => (hasKnowledge w (cacheKey n is4)).1
   | .choose ob dst d => (chooseDialTarget w ob dst d).1
   | .probeDone d a => probe w d a
+  | .probeStart d => (lookupReal w d).1
+  | .probeFinish d t0 a => probeFinish w d t0 a
+  | .negCleanup => negCleanup w
+  | .newGeneration m n => newGeneration w m n
 
 def run (w : World) (es : List Event) : World := es.foldl step w
+
+/-! ### the asynchronous probe as a transition system
+
+`triggerRealDomainProbe` starts a goroutine that goes through `singleflight.Do(name, …)`; the probe
+then blocks in the resolvers while connections, DNS answers, janitor ticks and reloads go on.
+`Sys.pending` = the probes blocked in their resolver call, with the `now` each took at its start. -/
+
+structure Sys where
+  w : World := {}
+  pending : List (Str × Int) := []
+deriving Repr, Inhabited
+
+/-- the probe goroutine up to the resolver call. A name already in flight joins that call
+(singleflight); a name the caches know by now, or a generation without bootstrap resolver, ends the
+probe at once. -/
+def Sys.start (s : Sys) (d : Str) : Sys :=
+  if s.pending.any (·.1 = d) then s
+  else
+    let (w1, known, _) := lookupReal s.w d
+    if known then { s with w := w1 }
+    else if w1.nboot = 0 then { s with w := w1 }
+    else { w := w1, pending := s.pending ++ [(d, w1.now)] }
+
+/-- the resolvers of the probe of `d` answered. -/
+def Sys.finish (s : Sys) (d : Str) (answers : List Ans) : Sys :=
+  match s.pending.find? (·.1 = d) with
+  | none => s
+  | some (_, t0) => { w := probeFinish s.w d t0 answers, pending := s.pending.filter (·.1 ≠ d) }
+
+/-- the generation's context is cancelled (reload / shutdown): every resolver call in flight fails
+for both families, which changes nothing. -/
+def Sys.cancelAll (s : Sys) : Sys := { s with pending := [] }
+
+/-- `ChooseDialTarget` followed by the goroutine it may have started. -/
+def Sys.choose (s : Sys) (ob : Nat) (dst : Dst) (d : Str) : Sys × Choice :=
+  let (w1, c) := chooseDialTarget s.w ob dst d
+  match c.probeReq with
+  | none => ({ s with w := w1 }, c)
+  | some n => (Sys.start { s with w := w1 } n, c)
+
+/-- what can happen to the system, in any order -/
+inductive SysEv
+  | choose (ob : Nat) (dst : Dst) (d : Str)
+  | finish (d : Str) (answers : List Ans)
+  | cancelAll
+  /-- anything else: DNS traffic, janitors, clock, reload … -/
+  | world (e : Event)
+deriving Repr
+
+def Sys.step (s : Sys) : SysEv → Sys
+  | .choose ob dst d => (s.choose ob dst d).1
+  | .finish d a => s.finish d a
+  | .cancelAll => s.cancelAll
+  | .world e => { s with w := DaeVerif.C18.step s.w e }
+
+def Sys.run (s : Sys) (es : List SysEv) : Sys := es.foldl Sys.step s
 
 end DaeVerif.C18
